@@ -29,9 +29,11 @@ CLAIMED = {
          "triple per stored expression whose address/offset is in the query, in increasing offset order (nothing without an address); "
          "section/module/IR scope proved to be the union over contained intervals up to the allowed omission (MUST<=result<=MAY, no repeats). "
          "Mapping mutations (mixins over a SortedDict) are covered by the bounded history stand-in."),
- "C18": ("proof", "4.C18", "deep_eq of the block leaf classes is characterised exactly against the real bodies; same-kind iff, reflexivity and "
-         "symmetry are discharged as lemmas over those characterisations. Container classes (sorted/zip/all bodies) are covered by the "
-         "bounded perturbation stand-in, stated as bounded."),
+ "C18": ("proof", "4.C18", "deep_eq of the block classes, Symbol, SymAddrConst and SymAddrAddr is characterised exactly against the real bodies (two "
+         "layers: symbols and expressions call deep_eq on their referents / symbols, modelled as the relation the lower layer "
+         "characterises); same-kind iff, reflexivity and symmetry (also across kinds) are discharged as lemmas over those "
+         "characterisations. Container classes (sorted/zip/all bodies: Section, ByteInterval, Module, IR, CFG) are covered by the "
+         "bounded perturbation stand-in over four IR shapes, stated as bounded."),
  "C19": ("proof", "4.C19", "initialized_size getter/setter (pad/truncate), the size setter (truncate on shrink, with index maintenance), block "
          "address/contents/contains_offset/contains_address are proved for all inputs; constructor/loader rejection and save+load by the "
          "bounded stand-in."),
